@@ -13,6 +13,7 @@ import (
 
 	"verif/engine"
 	"verif/lib/circ"
+	"verif/ref"
 	"verif/uni"
 )
 
@@ -149,6 +150,12 @@ func targets(tier string) []target {
 	mb1.lite, mb1.margin, mb1.ratios = true, true, []int{-1, 4, 5}
 	mc1 := ckksTarget(circ.CKKSSpec{LogN: 8, NQ: 4, Q0Bits: 60, QBits: 45, NP: 1, PBits: 61, LogScale: 45, BigAt: 1}, 7)
 	mc1.lite, mc1.margin, mc1.ratios = true, true, []int{-1, 4, 5}
+	// plaintext moduli of 40 and 60 bits: scales are large residues mod t (products exceed 2^64 as integers)
+	t40 := bgvTarget(circ.BGVSpec{LogN: 4, NQ: 5, QBits: 55, NP: 2, PBits: 56, T: ref.PrimesNear(1<<40, 64, 1, false)[0]})
+	t40.lite = true
+	t60 := bgvTarget(circ.BGVSpec{LogN: 4, NQ: 6, QBits: 61, NP: 1, PBits: 61, T: ref.PrimesNear(1<<60, 64, 1, true)[0]})
+	t60.lite = true
+	ts = append(ts, t40, t60)
 	// first in the list: few, expensive leaves that should run before an internal deadline can strike on a loaded machine
 	ts = append([]target{mb, mc, mb1, mc1}, ts...)
 	if tier == "thorough" {
@@ -222,7 +229,7 @@ func scenarios(tier string) []engine.Scenario {
 				case thorough && size == 1:
 					bound = 2
 				case !thorough && size == 2 && tg.n >= 16:
-					bound, entries = 1, coreEntries
+					bound, entries = 0, coreEntries
 				case size == 3 && tg.n >= 16 && !thorough:
 					bound, entries = 0, []int{eEvaluateNew}
 				case size == 3 && tg.n >= 16:
@@ -289,7 +296,7 @@ func main() {
 				"ltLevelQ=max", "ltLevelQ=max-1", "ltLevelQ=lowest", "levelP=max", "levelP=max-1",
 				"ctLevel=above-lt", "ctLevel=equal-lt", "ctLevel=below-lt", "ltScale=true", "ltScale=false", "ctScale=true", "ctScale=false",
 				"evaluator=fresh", "evaluator=reused", "evaluator=late-keys", "repeat=yes", "nDiags=3", "levelP=lowest3", "nDiags=1", "nDiags=2", "nDiags=all", "checked=sequential", "checked=many1", "checked=many2", "checked=many3",
-				"N1=1", "N1=2", "N1=4", "N1=8", "N1=16", "N1=32", "perm=all-of-4", "perm=family-8", "special=out-of-range-index", "special=empty-diagonal-set", "class=naive-only-diagonal-0", "class=EvaluateMany-after-giant-step", "many=no-earlier-giant-step"}
+				"N1=1", "N1=2", "N1=4", "N1=8", "N1=16", "N1=32", "bgv-t=>2^32", "perm=all-of-4", "perm=family-8", "special=out-of-range-index", "special=empty-diagonal-set", "class=naive-only-diagonal-0", "class=EvaluateMany-after-giant-step", "many=no-earlier-giant-step"}
 			for _, r := range ratioCycle {
 				e = append(e, fmt.Sprintf("ratio=%d", r))
 			}
